@@ -11,21 +11,21 @@ FILES = {
     "C03": [("C03", ["Scc.Core.Uniquify", "Scc.Core.Focus", "Scc.Core.Sem", "Scc.Core.Unique"])],
     "C04": [("C04", ["Scc.Core2AxCut.Model", "Scc.Core2AxCut.FsTyping", "Scc.AxCut.SemNamed", "Scc.AxCut.TypingNamed"]), ("C04Sem", [])],
     "C05": [("C05", ["Scc.AxCut.Linearize", "Scc.AxCut.SemPos", "Scc.AxCut.LinTyping"])],
-    "C06": [("C06Generic", ["Scc.Backend.Generic", "Scc.Backend.Mock", "Scc.Backend.AbstractMachine"]), ("C06X86", ["Scc.X86.Backend", "Scc.X86.Machine"]), ("C06X86Heap", []), ("C09Refine", [])],
-    "C07": [("C06Generic", ["Scc.Backend.Generic"]), ("C07A64", ["Scc.A64.Backend", "Scc.A64.Machine"])],
-    "C08": [("C06Generic", ["Scc.Backend.Generic"]), ("C08RV", ["Scc.RV.Backend", "Scc.RV.Machine"])],
+    "C06": [("C06Generic", ["Scc.Backend.Generic", "Scc.Backend.Mock", "Scc.Backend.AbstractMachine"]), ("C06X86", ["Scc.X86.Backend", "Scc.X86.Machine"]), ("C06X86Heap", []), ("C06X86Full", []), ("C09Refine", [])],
+    "C07": [("C06Generic", ["Scc.Backend.Generic"]), ("C07A64", ["Scc.A64.Backend", "Scc.A64.Machine"]), ("C07A64Int", [])],
+    "C08": [("C06Generic", ["Scc.Backend.Generic"]), ("C08RV", ["Scc.RV.Backend", "Scc.RV.Machine"]), ("C08RVInt", [])],
     "C09": [("C09", ["Scc.Heap.Model", "Scc.Heap.Inv"]), ("C09Refine", [])],
     "C10": [("C10", ["Scc.Heap.Model"])],
     "C13": [("C13X86", ["Scc.X86.Machine"]), ("C13A64", ["Scc.A64.Machine"]), ("C13Loader", [])],
     "C14": [("C14Generic", []), ("C14X86", []), ("C14A64", []), ("C14RV", []), ("C14Loader", []), ("C14LoaderA64", []), ("C14LoaderA64Names", []), ("C14LoaderA64Compose", [])],
     "C15": [("C15", ["Scc.Fun.Check", "Scc.Fun.Typing"])],
     "C16": [("C16", ["Scc.Fun.Lex", "Scc.Fun.Parse", "Scc.Fun.Print"]), ("C18Cur", ["Scc.Generated.Parser"])],
-    "C18": [("C18", ["Scc.Fun.Parse"]), ("C18Cur", ["Scc.Generated.Parser"]), ("C12Codegen", []), ("FunSafety", [])],
+    "C18": [("C18", ["Scc.Fun.Parse"]), ("C18Cur", ["Scc.Generated.Parser"]), ("C12Codegen", []), ("C12Final", []), ("FunSafety", [])],
     "C19": [("C19", ["Scc.Fun2Core.Size"]), ("C19Shrink", []), ("C19Rest", [])],
     # C12 = the chain of preservation/no-panic theorems of the individual passes
-    "C12": [("C12", ["Scc.Pipeline"]), ("C12Codegen", []), ("C12Fun2Core", []), ("C12Fun2CoreStrict", []), ("C12Mid", []), ("C15", ["Scc.Fun.Check"]), ("C02", ["Scc.Fun2Core.Model"]), ("C03", ["Scc.Core.Focus"]), ("C04", ["Scc.Core2AxCut.Model"]), ("C05", ["Scc.AxCut.Linearize"])],
+    "C12": [("C12Final", []), ("C12", ["Scc.Pipeline"]), ("C12Codegen", []), ("C12Fun2Core", []), ("C12Fun2CoreStrict", []), ("C12Mid", []), ("C15", ["Scc.Fun.Check"]), ("C02", ["Scc.Fun2Core.Model"]), ("C03", ["Scc.Core.Focus"]), ("C04", ["Scc.Core2AxCut.Model"]), ("C05", ["Scc.AxCut.Linearize"])],
     # C01 = composition theorem over the whole pipeline model + its links
-    "C01": [("C01", ["Scc.Pipeline"]), ("C01Checks", []), ("C01Loader", []), ("C06Capacity", []), ("C06X86Heap", []), ("C12", []), ("C20Full", []), ("C02Sem", []), ("C02SemSafe", []), ("C03", []), ("C04Sem", []), ("C06Generic", [])],
+    "C01": [("C01Final", []), ("C01", ["Scc.Pipeline"]), ("C01Checks", []), ("C01Loader", []), ("C06Capacity", []), ("C06X86Heap", []), ("C12", []), ("C20Full", []), ("C02Sem", []), ("C02SemSafe", []), ("C03", []), ("C04Sem", []), ("C06Generic", [])],
 }
 
 def theorems(path):
